@@ -136,6 +136,14 @@ def gen_tuples(t, sd):
         ka = rng.choice(["minimum", "exclusiveMinimum"])
         kb = rng.choice(["maximum", "exclusiveMaximum"])
         add(type=rng.choice(["number", "number", "integer"]), **{ka: a, kb: b})
+    # intervals inside one unit (same integer part on both sides), all inclusive/exclusive combinations
+    for _ in range(24 if t == "quick" else 200):
+        a = F(rng.randint(-30, 30))
+        lo = a + rng.choice([F(0), F(0), F(1, 10), F(25, 100), F(5, 10)])
+        hi = a + rng.choice([F(5, 10), F(75, 100), F(9, 10), F(999, 1000), F(1)])
+        if lo > hi:
+            lo, hi = hi, lo
+        add(type="number", **{rng.choice(["minimum", "exclusiveMinimum"]): lo, rng.choice(["maximum", "exclusiveMaximum"]): hi})
     # both inclusive and exclusive keywords present (selection of the stricter one)
     for _ in range(10 if t == "quick" else 80):
         a = rng.randint(-20, 20)
@@ -310,6 +318,25 @@ class Enc:
         return s
 
 
+def mult_exp(t):
+    e = 0
+    for m in mults(t):
+        k = 0
+        while m.denominator != 1:
+            m *= 10
+            k += 1
+        e = max(e, k)
+    return e
+
+
+def classify(t, text, kind):
+    """role of a disagreement (used as known-finding key): never a line number or a concrete schema"""
+    frac = len(text.split(".")[1]) if "." in text else 0
+    if kind.startswith("rejected-inside") and mults(t) and frac > 0 and frac != mult_exp(t):
+        return "rejected-inside-bounds|number|multipleOf-fraction-digits-differ-from-step"
+    return "%s|%s|mult=%s|frac=%s" % (kind, t["type"], bool(mults(t)), frac > 0)
+
+
 def find_number_lexeme(res):
     import re
     m = re.search(r"start\s+⇦\s+•?\s*\[(\d+)\]", res.get("cgrammar", "") or "")
@@ -376,7 +403,25 @@ def _work(args):
         st["queries"] += 1
         if r == z3.sat:
             st["sat"] += 1
-            cands.append((t, enc.text(s.model()), kind.startswith("accepted"), kind))
+            txt = enc.text(s.model())
+            cands.append((t, txt, kind.startswith("accepted"), kind))
+            if classify(t, txt, kind).endswith("multipleOf-fraction-digits-differ-from-step"):
+                # look past the recorded finding: a second model whose fraction has no digits or exactly as many as the step
+                e = mult_exp(t)
+                nfrac = z3.Sum([z3.If(p, 1, 0) for p in enc.fp]) if enc.fp else z3.IntVal(0)
+                s.add(z3.Or(nfrac == 0, nfrac == e))
+                t0 = time.time()
+                r2 = s.check()
+                st["solver_s"] += time.time() - t0
+                st["queries"] += 1
+                if r2 == z3.sat:
+                    st["sat"] += 1
+                    cands.append((t, enc.text(s.model()), False, kind))
+                elif r2 == z3.unsat:
+                    st["unsat"] += 1
+                else:
+                    st["unknown"] += 1
+                    inc.append("solver returned unknown on %s" % tuple_str(t))
         elif r == z3.unsat:
             st["unsat"] += 1
         else:
@@ -470,7 +515,7 @@ def run():
         got = bool(rr.get("all") and rr.get("accepting"))
         if got != want:
             log("  disagreement:", json.dumps(make_schema(t)), repr(text), "engine", got, "oracle", want)
-            key = "%s|%s|mult=%s|frac=%s" % (kind, t["type"], bool(mults(t)), "." in text)
+            key = classify(t, text, kind)
             viol.append((key, dict(property=prop, kind=kind, schema=make_schema(t), literal=text, engine_accepts=got, oracle_accepts=want,
                                    replay=dict(consumed=rr.get("consumed"), accepting=rr.get("accepting")))))
         else:
